@@ -181,6 +181,10 @@ def check(ctx):
                         if cc['k'] == 'BinaryOperator' and cc.get('op') == '==' and truth and \
                                 const_of(strip_casts(kids(cc)[1])) == 0:
                             ok2 = True
+                        # ... or the list's two ends coincide
+                        if cc['k'] == 'BinaryOperator' and cc.get('op') == '==' and truth and \
+                                sorted((strip_casts(x).get('ref') or {}).get('n', '?') for x in kids(cc)) == ['begin', 'end']:
+                            ok2 = True
         ctx.ob('C08.R3.no-move-score', short(f.name), ok2,
                'with an empty move list %s returns lost_in(0) when in check and VALUE_DRAW otherwise' % short(f.name),
                site=f.loc())
@@ -386,6 +390,6 @@ def _half_plies(nm, arg, sign, vmate):
                 if l1 == l2 == ({'score': sign}, vmate):
                     return True, 'n/2 + n%2'
     lin = nm.linear(m)
-    return False, 'the printed number is %s: a distance in plies, not halved' % (lin if lin else nm.s(m))
+    return False, 'the printed number is %s: a distance in plies, not halved' % (str(lin) if lin else nm.s(m))
 
 
